@@ -145,6 +145,22 @@ def tree2(pub, d0, d1):
     return tree_control_blocks(pub, (0, 1), [d0, d1])
 
 
+def tree2_reused(pub_first, pub, d0, d1):
+    """history: ONE tree object is first used with another internal key (output key and every control block), then
+    with `pub`; what it answers for `pub` must not depend on the earlier use"""
+    leaves = [TapLeaf(Script([d, 0xAC])) for d in (d0, d1)]
+    root = _tree((0, 1), leaves)
+    root.external_pubkey(pub_first)
+    for leaf in leaves:
+        root.control_block(pub_first, leaf)
+    out_key = root.external_pubkey(pub)
+    rows = []
+    for leaf in leaves:
+        cb = root.control_block(pub, leaf)
+        rows.append((cb.serialize(), cb.external_pubkey(leaf.tap_script), cb.parity))
+    return out_key, rows
+
+
 def tree2_dup(pub, d0):
     return tree_control_blocks(pub, (0, 1), [d0, d0])
 
